@@ -462,7 +462,13 @@ pub enum RampA {
 
 #[derive(Clone, Debug, Serialize, Deserialize)]
 pub enum Op {
-    Provide { user: u8, a: [Amt; 3] },
+    Provide {
+        user: u8,
+        a: [Amt; 3],
+        /// which permutation of the three assets the message lists them in
+        #[serde(default)]
+        ord: u8,
+    },
     ProvideBalanced { user: u8, k: u16 },
     Withdraw { user: u8, k: u16 },
     Swap { user: u8, from: u8, to: u8, amt: Amt },
@@ -495,7 +501,7 @@ fn op() -> BoxedStrategy<Op> {
     ];
     let dblocks = prop_oneof![Just(9_999u64), Just(10_000), Just(10_001), Just(0), 1u64..40_000];
     prop_oneof![
-        2 => (0u8..4, [amt110(), amt110(), amt110()]).prop_map(|(user, a)| Op::Provide { user, a }),
+        2 => (0u8..4, [amt110(), amt110(), amt110()], 0u8..6).prop_map(|(user, a, ord)| Op::Provide { user, a, ord }),
         2 => (0u8..4, 1u16..30000).prop_map(|(user, k)| Op::ProvideBalanced { user, k }),
         3 => (0u8..4, any::<u16>()).prop_map(|(user, k)| Op::Withdraw { user, k }),
         7 => (0u8..4, 0u8..3, 0u8..3, amt110()).prop_map(|(user, from, to, amt)| Op::Swap { user, from, to, amt }),
@@ -587,12 +593,14 @@ impl Check for TrioHistory {
         let mut swaps_in_ramp = 0;
         let mut deposits_in_ramp = 0;
         for (step, op) in c.ops.iter().enumerate() {
+            tw.msg_order = [0, 1, 2];
             let h = tw.w.app.block_info().height;
             let a_now = amp.at(h);
             let in_ramp = amp.stop != 0 && h < amp.stop && amp.initial != amp.target;
             let mut check_value = false;
             match op {
-                Op::Provide { user, a } => {
+                Op::Provide { user, a, ord } => {
+                    tw.msg_order = [[0, 1, 2], [0, 2, 1], [1, 0, 2], [1, 2, 0], [2, 0, 1], [2, 1, 0]][(*ord % 6) as usize];
                     let usr = tw.user(*user);
                     let mut amounts = [0u128; 3];
                     for i in 0..3 {
